@@ -220,6 +220,11 @@ func cmdCheck(args []string) int {
 			notes = append(notes, c.Key+": "+n)
 		}
 		for _, o := range c.Obls {
+			if v := os.Getenv("VCGO_SLOW"); v != "" && !o.ExpectSat {
+				if th, _ := strconv.Atoi(v); int(o.Ms) >= th {
+					fmt.Fprintf(os.Stderr, "SLOW %6dms %-14s %s\n", o.Ms, o.Solver, o.Name)
+				}
+			}
 			nQueries++
 			totalMs += o.Ms
 			s := byName[o.Name]
